@@ -14,7 +14,15 @@ ID = "C04"
 PROPS_FILE = "Props/C04.v"
 GEN_DEPS: List[str] = []
 ALLOWED_AXIOMS: List[str] = []
-THEOREMS: Dict[str, str] = {}
+THEOREMS: Dict[str, str] = {
+    "C04_html_realises_grid": "full",
+    "C04_html_realises_tree": "full",
+    "C04_tds_are_cells": "full",
+    "C04_span_attrs": "full",
+    "C04_classes": "full",
+    "C04_emit_fast_eq": "full",
+    "C04_example": "example",
+}
 TRUSTED = [
     "Coq 8.16.1 kernel (coqc; vm_compute for the correspondence only)",
     "Model/HtmlTable.v html_place is a hand transcription of the HTML standard's table-forming algorithm restricted "
